@@ -244,4 +244,27 @@ pub fn command_value(table: &Table, def: &SeqDef) -> (Val, Vec<u8>) {
     panic!("no canonical command value for {}", def.name)
 }
 
+/// The command value of `command_value` plus further inputs of the sequence: another field
+/// assignment, the bare command, and special inputs the protocol defines (receipt number FFFF =
+/// "what is pending?" for the reversals).
+pub fn command_values(table: &Table, def: &SeqDef) -> Vec<(Val, Vec<u8>)> {
+    let codec = Codec::new(table);
+    let ty = table.get(def.input);
+    let mut out = vec![command_value(table, def)];
+    let mut cands = vec![all_present(table, ty, 0, 1), all_present(table, ty, 2, 1), baseline(table, ty)];
+    if let Some(i) = ty.fields.iter().position(|f| f.name == "receipt_no" && f.enc == Enc::Rcpt) {
+        let mut v = baseline(table, ty);
+        v.fields_mut()[i] = if ty.fields[i].wrap == Wrap::Opt { Val::some(Val::Int(0xffff)) } else { Val::Int(0xffff) };
+        cands.insert(0, v);
+    }
+    for v in cands {
+        if let Some(b) = codec.canonical(ty, &v) {
+            if !out.iter().any(|(_, ob)| *ob == b) {
+                out.push((v, b));
+            }
+        }
+    }
+    out
+}
+
 pub const ACK: [u8; 3] = [0x80, 0x00, 0x00];
